@@ -920,6 +920,14 @@ static char *tn_hexstr(const char **pp)   /* reads hex up to ';' -> malloc'd C s
     return s;
 }
 
+#define MAXPIN 4096
+static cJSON *pinned[MAXPIN];
+static int npinned;
+void tn_release_pinned(void)
+{
+    while (npinned > 0) { cJSON *c = pinned[--npinned]; LIB_BEGIN("cJSON_Delete"); cJSON_Delete(c); LIB_END(); }
+}
+
 cJSON *tn_build(const char **pp)
 {
     const char *p = *pp;
@@ -974,8 +982,23 @@ cJSON *tn_build(const char **pp)
                 cconst = (*p == 'c'); p++;
                 ck = tn_hexstr(&p);
             }
-            c = tn_build(&p);
-            if (!c) cjv_fatal("tn_build child failed");
+            {
+                /* "r" in front of a non-string child: attach a *reference* to it (the item itself stays
+                 * pinned until the end of the case and is released by tn_release_pinned) */
+                int as_ref = (p[0] == 'r' && p[1] != 's');
+                if (as_ref) p++;
+                c = tn_build(&p);
+                if (!c) cjv_fatal("tn_build child failed");
+                if (as_ref) {
+                    cJSON_bool ok;
+                    if (npinned == MAXPIN) cjv_fatal("too many pinned items");
+                    pinned[npinned++] = c;
+                    if (isobj) { LIB_BEGIN("cJSON_AddItemReferenceToObject"); ok = cJSON_AddItemReferenceToObject(n, ck, c); LIB_END(); xfree(ck); }
+                    else { LIB_BEGIN("cJSON_AddItemReferenceToArray"); ok = cJSON_AddItemReferenceToArray(n, c); LIB_END(); }
+                    if (!ok) cjv_violation("build/add-failed", "AddItemReferenceTo* returned false while building a tree");
+                    continue;
+                }
+            }
             if (isobj) {
                 cJSON_bool ok;
                 if (cconst) { const char *b = bor_add(ck, strlen(ck) + 1); LIB_BEGIN("cJSON_AddItemToObjectCS"); ok = cJSON_AddItemToObjectCS(n, b, c); LIB_END(); }
